@@ -854,7 +854,7 @@ class Buffer:
         """
         Go to this item in the history.
         """
-        if index < len(self._working_lines):
+        if 0 <= index < len(self._working_lines):
             self.working_index = index
             self.cursor_position = len(self.text)
 
